@@ -260,6 +260,7 @@ def run(prop, tier):
     stats = {}
     violations, inconclusive, samples = [], [], []
     n_prog = n_unstable = n_skipped = n_disagree = 0
+    scope_count, extended = {}, []
     CH = 50
     done = 0
     while done < n_random and time.time() - t0 < budget_s:
@@ -290,18 +291,24 @@ def run(prop, tier):
                 continue
             if len(samples) < 3 and any(n.get("state") for n in out["nodes"].values()) and rng.random() < 0.05:
                 samples.append({"function": symexec.find_sub(out["project"], FN), "analysis_at_block_starts": {k: {r: v for r, v in n.get("regs", {}).items() if r in ("RAX", "RCX", "RSP")} for k, n in out["nodes"].items()}})
+            scope_count[inp.get("scope", "stated")] = scope_count.get(inp.get("scope", "stated"), 0) + 1
             if res is None:
                 continue
             n_disagree += 1
             key = "C13 %s" % res["kind"]
-            path = save_replay(prop, "%s_%d" % (res["kind"].replace(" ", "_"), n_prog), {"property": prop, "engine": "tv", "program": inp, "state": res["state"], "what": res["what"], "kind": res["kind"]})
+            path = save_replay(prop, "%s_%d" % (res["kind"].replace(" ", "_"), n_prog), {"property": prop, "engine": "tv", "program": inp, "state": res["state"], "what": res["what"], "kind": res["kind"], "scope": inp.get("scope", "stated")})
+            if inp.get("scope", "stated") == "extended":
+                # outside the program class the property text quantifies over: reported, never a VIOLATION of C13
+                extended.append({"what": res["what"], "replay": path})
+                print("NOTE property=C13 extended-scope disagreement (program uses pointer parameters, extern calls, heap objects or register-addressed loads, which the property text does not quantify over): %s replay=%s" % (res["what"][:200], path), flush=True)
+                continue
             violations.append({"key": key, "what": res["what"], "replay": path})
     uniq = {}
     for v in violations:
         uniq.setdefault(v["key"], v)
     violations = list(uniq.values())
     coverage = {
-        "programs": n_prog, "disagreements_checked": n_disagree, "samples": samples or [{}],
+        "programs": n_prog, "programs_per_scope": scope_count, "extended_scope_disagreements": extended[:10], "disagreements_checked": n_disagree, "samples": samples or [{}],
         "programs_without_fixpoint_skipped": n_unstable, "programs_skipped_path_budget": n_skipped,
         "block_visits_checked": stats.get("block_visits", 0), "register_membership_queries": stats.get("register_checks", 0), "of_which_heap_pointer_values": stats.get("heap_pointer_checks", 0),
         "queries_discharged": stats.get("queries", 0), "solver_s": round(stats.get("solver_s", 0.0), 1), "queries_undecided_solver_timeout": stats.get("undecided", 0),
@@ -319,6 +326,8 @@ def run(prop, tier):
         "the objects pointer parameters point to are at least 2^16 bytes away from address 0, from the entry stack pointer and from each other (the analysis' no-aliasing assumption for parameter objects)",
         "calls go to extern functions only and the callee is modelled as a pure function, which is one admissible behaviour of any extern symbol: callee-saved registers (RBX, RBP) and all memory survive, "
         "the return address is popped (stack pointer + 8, as the analysis assumes for x86), every other register and flag holds an arbitrary value (flags 0/1) afterwards",
+        "programs are generated in two classes: 'stated' = the class the property text quantifies over (registers, comparisons, stack memory at constant offsets, constant absolute addresses) and "
+        "'extended' = additionally pointer parameters, extern calls, heap objects, register-addressed loads; a disagreement on a 'stated' program is a VIOLATION, one on an 'extended' program is printed as NOTE and listed under extended_scope_disagreements without failing the check",
         "only analysis runs that reach their fixpoint are judged; every solver model is replayed by the concrete interpreter before it is reported",
     ]
     known_keys = {f["key"] for f in __import__("common").load_known(prop)}
@@ -339,6 +348,9 @@ def replay(prop, path):
         log("replay: the analysis does not reach its fixpoint on this program any more")
         return 0
     res = check_project(d["program"], out, {})
+    if res is not None and d["program"].get("scope", "stated") == "extended":
+        print("NOTE property=%s extended-scope disagreement reproduces: %s replay=%s" % (prop, res["what"][:200], path))
+        return 0
     if res is not None:
         print("VIOLATION property=%s replay=%s" % (prop, path))
         log("  " + res["what"][:400])
